@@ -325,17 +325,17 @@ def _mask_meaning(func, owner, name: str):
 from .resolve import rtext as rtext_
 
 
-def _mapped_over(value, env, tup_text: str) -> bool:
+def _mapped_over(value, env, tup_text: str):
     """tuple(F(x) for x in TUP)  or  (F(a), F(b), F(c)) with (a, b, c) = TUP: the same one-argument function applied
-    to the three outputs in order."""
+    to the three outputs in order.  True / False (a map over the outputs in another order or selection) / None (not such a map)."""
     from .resolve import resolved
     v = resolved(value, env)
     while isinstance(v, ast.Call) and call_name(v) in ("tuple", "list") and len(v.args) == 1:
         v = v.args[0]
     if isinstance(v, (ast.GeneratorExp, ast.ListComp)) and len(v.generators) == 1 and not v.generators[0].ifs \
-            and norm(v.generators[0].iter) == tup_text and isinstance(v.elt, ast.Call) and len(v.elt.args) == 1 \
-            and norm(v.elt.args[0]) == norm(v.generators[0].target) and not v.elt.keywords:
-        return True
+            and isinstance(v.elt, ast.Call) and len(v.elt.args) == 1 \
+            and norm(v.elt.args[0]) == norm(v.generators[0].target) and not v.elt.keywords and isinstance(v.generators[0].iter, ast.Tuple):
+        return norm(v.generators[0].iter) == tup_text
     if isinstance(v, (ast.GeneratorExp, ast.ListComp)) and len(v.generators) == 1 and not v.generators[0].ifs \
             and isinstance(v.generators[0].iter, (ast.List, ast.Tuple)) and isinstance(v.elt, ast.Call) and len(v.elt.args) == 1 \
             and not v.elt.keywords and isinstance(v.elt.args[0], ast.Subscript) and norm(v.elt.args[0].slice) == norm(v.generators[0].target):
@@ -343,8 +343,10 @@ def _mapped_over(value, env, tup_text: str) -> bool:
         return "(" + ", ".join(f"{out}[{norm(k)}]" for k in v.generators[0].iter.elts) + ")" == tup_text
     if isinstance(v, ast.Tuple) and len(v.elts) == 3 and all(isinstance(e, ast.Call) and len(e.args) == 1 and not e.keywords for e in v.elts):
         fns = {norm(e.func) for e in v.elts}
-        return len(fns) == 1 and "(" + ", ".join(norm(e.args[0]) for e in v.elts) + ")" == tup_text
-    return False
+        if len(fns) != 1:
+            return None
+        return "(" + ", ".join(norm(e.args[0]) for e in v.elts) + ")" == tup_text
+    return None
 
 
 def rule_scope_flags(rep: Report, repo: Repo):
@@ -444,12 +446,14 @@ def rule_scope_flags(rep: Report, repo: Repo):
         t = rtext_(r_.value, _ea(r_, f))
         if t == TUP:
             forms.append("plain")
-        elif _mapped_over(r_.value, _ea(r_, f), TUP):
+        elif _mapped_over(r_.value, _ea(r_, f), TUP) is True:
             forms.append("mapped")
+        elif _mapped_over(r_.value, _ea(r_, f), TUP) is False:
+            forms.append("wrong-order:" + t[:80])
         else:
             forms.append("other:" + t[:80])
-    if any(x.startswith("other") for x in forms):
-        known_wrong = [x for x in forms if x.startswith(f"other:({OUT}[")]
+    if any(x.startswith(("other", "wrong-order")) for x in forms):
+        known_wrong = [x for x in forms if x.startswith(f"other:({OUT}[") or x.startswith("wrong-order")]
         if known_wrong:
             rep.fail(R, f"{MOD}::block_diagonalize returns (H_tilde, U, U†) in this order", str(known_wrong), loc(rets[-1]))
         else:
